@@ -21,6 +21,18 @@ if variant:
     txt += ("\n\nAdditional requirement: earlier rounds already produced changes in the most obvious places for this property; "
             "choose code sites and mechanisms that are LESS obvious (different functions than the first ones that come to mind, "
             "e.g. a rarely taken branch, a recycling/free-list path, a boundary between two representations, an interplay of two flags).")
+if variant:
+    import glob, re
+    used = []
+    for d in sorted(glob.glob(f"/verif/seeded/{prop}-*")):
+        pf = os.path.join(d, "patch.diff")
+        if os.path.exists(pf):
+            t = open(pf).read()
+            files = re.findall(r"^\+\+\+ b/(\S+)", t, re.M)
+            fns = re.findall(r"^@@.*@@ func (?:\([^)]*\) )?(\w+)", t, re.M)
+            used.append(f"{', '.join(sorted(set(files)))}: {', '.join(dict.fromkeys(fns)) or '(top of file)'}")
+    if used:
+        txt += "\n\nCode sites already used by earlier rounds for this property (do NOT change these functions again; pick different mechanisms):\n - " + "\n - ".join(used)
 os.makedirs("/tmp/seedprompts", exist_ok=True)
 open(f"/tmp/seedprompts/{tag}.prompt", "w").write(txt)
 if not os.path.isdir(wt):
